@@ -50,6 +50,10 @@ func main() {
 		os.Exit(debugGramDump(os.Args[2], os.Args[3:]))
 	case "scan":
 		os.Exit(debugScan(os.Args[2:]))
+	case "drv":
+		os.Exit(debugDrv(os.Args[2:]))
+	case "drvprobe":
+		os.Exit(debugDrvProbe(os.Args[2:]))
 	case "scanprobe":
 		os.Exit(debugScanProbe(os.Args[2:]))
 	case "replay":
